@@ -90,6 +90,15 @@ check("C11", "runtime monitoring: fresh-twin oracle as an online monitor on ever
       "Trusted: a freshly constructed object of the same implementation is the reference (history-independence is "
       "what is decided, not absolute correctness - that is C04-C07).", "DESIGN.md 4 C11")
 
+check("C08", "runtime monitoring: argument-immutability wrapper (fingerprint before / after return / after raise) on every public "
+      "entry point, reject-atomicity monitor on the Circuit mutators, parent-stability through the shadow model, and a "
+      "quiescent-point invariant on the library's shared module-level gate instances",
+      "Held on the histories explored: no Circuit/State/Parameter/PostSelection/array argument changed across add, +, copy, "
+      "simulate, sample*, analyze, Reck.map, Display, tomography, converter; parents stayed put when a reused child was "
+      "edited; every listed kind of invalid construction call raised and left the circuit exactly as it was.",
+      "Trusted: fingerprint definition (n_modes, heralds, internal modes, component digest, U_full to 1e-12).",
+      "DESIGN.md 4 C08")
+
 NOT_APPLICABLE = []
 _EXPLICIT_NA = {}
 for line in open("/verif/properties.jsonl"):
